@@ -385,3 +385,42 @@ FAULT_THOROUGH = [
     fault_cfg("v", 0, "NTR", "basic", "uint32_t", std="c++11"),
     fault_cfg("s", 4, "TR", "basic", "uint32_t", std="c++20"),
 ]
+
+
+class PairCfg:
+    """two vector types for the swap2 grid; spec strings: 'v:alloc:st', 's<N>:alloc:st', 'f<N>'"""
+
+    def __init__(self, elem, a, b, std="c++17", compiler="g++"):
+        self.elem, self.a, self.b, self.std, self.compiler = elem, a, b, std, compiler
+        self.name = "sw_%s_%s__%s_%s_%s" % (elem, a.replace(":", "-"), b.replace(":", "-"), std.replace("c++", "cxx"), "gcc" if compiler == "g++" else "clang")
+
+    def texpr(self, t):
+        e = ELEMS[self.elem]
+        parts = t.split(":")
+        if parts[0].startswith("f"):
+            return vec_expr("f", int(parts[0][1:]), e, None, None)
+        a = alloc_expr(parts[1], e)
+        if parts[0] == "v":
+            return vec_expr("v", 0, e, a, parts[2])
+        return vec_expr("s", int(parts[0][1:]), e, a, parts[2])
+
+    def source(self):
+        return ('#define VF_CFG_NAME "%s"\n#include "vec_common.hpp"\nusing Elem = %s;\nusing VecA = %s;\nusing VecB = %s;\n#include "swap2_grid_main.hpp"\n'
+                % (self.name, ELEMS[self.elem], self.texpr(self.a), self.texpr(self.b)))
+
+    def spec(self):
+        return {"name": self.name, "source": self.source(), "std": self.std, "compiler": self.compiler, "extra": ["-DAMC_NONSTD_FEATURES"]}
+
+
+V32, V8, S2, S4, S4U8, S3X, F3, F8 = ("v:basic:uint32_t", "v:basic:uint8_t", "s2:basic:uint32_t", "s4:basic:uint32_t", "s4:basic:uint8_t", "s3:exact2:uint32_t", "f3", "f8")
+SWAP2_QUICK = [
+    PairCfg("NTR", V32, S4), PairCfg("TR", V32, V8), PairCfg("NTR", S2, S4), PairCfg("TR", S4, S4U8), PairCfg("NTR", S4, S3X), PairCfg("TR", S4, F3),
+    PairCfg("NTR", F3, F8), PairCfg("TC4", V8, F8), PairCfg("TR", S2, V8), PairCfg("NTR", S4U8, F8), PairCfg("TC4", V32, S3X), PairCfg("TR", S4, S4),
+]
+SWAP2_THOROUGH = [
+    PairCfg("TR", V32, S4), PairCfg("NTR", V32, V8), PairCfg("TR", S2, S4), PairCfg("NTR", S4, S4U8), PairCfg("TR", S4, S3X), PairCfg("NTR", S4, F3),
+    PairCfg("TR", F3, F8), PairCfg("NTR", V8, F8), PairCfg("NTR", S2, V8), PairCfg("TR", S4U8, F8), PairCfg("NTR", V32, S3X), PairCfg("NTR", S4, S4),
+    PairCfg("TC4", S4, "s8:realloc:int16_t"), PairCfg("TR", "s1:realloc:uint16_t", "v:realloc:uint64_t"), PairCfg("NTR", "s8:amc:uint32_t", "v:amc:uint32_t"),
+    PairCfg("NTR", V32, V32), PairCfg("TR", "s3:exact:int8_t", "s5:exact:uint32_t"), PairCfg("TC12", "s2:std:uint32_t", "f8"),
+    PairCfg("NTR", V32, S4, compiler="clang++-14"), PairCfg("TR", S4, S4U8, std="c++20"), PairCfg("NTR", S2, F3, std="c++11"),
+]
